@@ -34,12 +34,12 @@ Definition c04_cfg : config :=
                    stop_style := StopNonBlocking; run_exit := ExitFree; held_sub := false |} ];
      startup_may_fire := false; shutdown_may_fire := false |}.
 Definition c04_sched : list label :=
-  [LLaunch 0; LRunCall 0; LRunRet 0 (Some (7, false)); LErrSend 0; LReapErr; LMainShutdown;
+  [LRunEnter; LRunEntered; LLaunch 0; LRunCall 0; LRunRet 0 (Some (7, false)); LErrSend 0; LReapErr; LMainShutdown;
    LStopCall 0; LStopRet 0; LSdCancel; LSdWgDone; LMainReturn (ResErr 7)].
 Example C04_ex_schedule :
   exists s, run (step c04_cfg) (init c04_cfg) c04_sched = Some s /\
             obs_trace obs c04_sched =
-            [ERunCall 0; ERunRet 0 (Some (7, false)); EStopCall 0; EStopRet 0; ERunReturn (ResErr 7)].
+            [ERunEnter; ERunCall 0; ERunRet 0 (Some (7, false)); EStopCall 0; EStopRet 0; ERunReturn (ResErr 7)].
 Proof. eexists. split; vm_compute; reflexivity. Qed.
 Example C04_ex_rejects_foreign_error :
   c04_holdsb c04_cfg [ERunCall 0; ERunRet 0 (Some (7, true)); ERunReturn (ResErr 7)] = false.
@@ -78,7 +78,7 @@ Print Assumptions C04_reports_final.
 (* non-vacuity: in c04_sched_pre Main reacts to the failure (LReapErr) before any other trigger; a
    Shutdown() call and a SIGTERM arriving afterwards do not change the result *)
 Definition c04_sched_pre : list label :=
-  [LLaunch 0; LRunCall 0; LRunRet 0 (Some (7, false)); LErrSend 0; LReapErr].
+  [LRunEnter; LRunEntered; LLaunch 0; LRunCall 0; LRunRet 0 (Some (7, false)); LErrSend 0; LReapErr].
 Definition c04_sched_post : list label :=
   [LCall 1 OpShutdown; LCallerGo 1; LCall 2 (OpSignal SigTerm); LSigPut 2; LMainShutdown;
    LStopCall 0; LStopRet 0; LSdCancel; LSdWgDone; LMainReturn (ResErr 7)].
@@ -94,7 +94,7 @@ Qed.
 (* the hypothesis matters: when SIGTERM is consumed first, Run() returns nil although a runnable
    failed *)
 Definition c04_sched_term : list label :=
-  [LLaunch 0; LRunCall 0; LCall 2 (OpSignal SigTerm); LSigPut 2; LRunRet 0 (Some (7, false)); LErrSend 0;
+  [LRunEnter; LRunEntered; LLaunch 0; LRunCall 0; LCall 2 (OpSignal SigTerm); LSigPut 2; LRunRet 0 (Some (7, false)); LErrSend 0;
    LReapSig; LMainShutdown; LStopCall 0; LStopRet 0; LSdCancel; LSdWgDone; LMainReturn ResNil].
 Example C04_ex_reports_other_trigger :
   exists s, run (step c04_cfg) (init c04_cfg) c04_sched_term = Some s /\ main s = MReturned ResNil /\
